@@ -188,7 +188,7 @@ Definition c01_tables_ok : bool :=
   static_table_ok vcfg_statics modelled_statics &&
   method_table_ok vcfg_method_info (VList []) 5 modelled_list_methods &&
   method_table_ok vcfg_method_info (VMap []) 6 modelled_map_methods &&
-  method_table_ok vcfg_method_info (VStr []) 3 [n_len; n_string] &&
+  method_table_ok vcfg_method_info (VStr []) 3 ([n_len; n_string] ++ modelled_str_methods) &&
   method_table_ok vcfg_method_info (VInt 0) 1 [n_string] &&
   method_table_ok vcfg_method_info (VFloat fl_zero) 2 [n_string] &&
   method_table_ok vcfg_method_info (VBool true) 4 [n_string].
